@@ -509,15 +509,16 @@ type RCase struct {
 	Cap     int    `json:"cap"`
 	MaxKB   int    `json:"maxkb"`
 	N       int    `json:"n"`       // messages pre-delivered to one mailbox
-	Workers []int  `json:"workers"` // per worker: 0 = remove every id in order, 1 = in reverse, 2 = purge, 3 = deliver more
+	Workers []int  `json:"workers"` // per worker: 0 = remove every id in order, 1 = in reverse, 2 = purge, 3 = deliver more, 4 = mark seen, 5 = deliver 40, 6 = deliver 40 to a second mailbox
 }
 
 var propRace = hx.Prop[RCase]{
 	ID: pid, Name: "racing",
 	Rule: "5-25 messages are delivered to one mailbox (mem with cap/size limit, or file), then 3-8 goroutines at once remove every id in " +
 		"order, in reverse, purge the mailbox, keep delivering (cap/size evictions), or mark every message seen: however the removals of one message overlap, " +
-		"the conservation oracle must hold after quiescence - in particular each message's deleted event exactly once; non-trivial = at " +
-		"least two workers remove the same ids",
+		"the conservation oracle must hold after quiescence - in particular each message's deleted event exactly once; one case in four is a " +
+		"flood: mem with cap 1-3 and maxkb 1-2 at once, 4-8 workers delivering 40 messages each to the full mailbox or a second one; non-trivial = at " +
+		"least two workers remove the same ids, or a flood",
 	Quick: 60, Thorough: 600,
 	Gen: func(t *rapid.T) RCase {
 		c := RCase{Backend: rapid.SampledFrom([]string{"mem", "mem", "file"}).Draw(t, "backend"), Cap: rapid.SampledFrom([]int{0, 0, 10}).Draw(t, "cap"), N: rapid.IntRange(5, 25).Draw(t, "n")}
@@ -525,6 +526,12 @@ var propRace = hx.Prop[RCase]{
 			c.MaxKB = rapid.SampledFrom([]int{0, 0, 4}).Draw(t, "maxkb")
 		}
 		c.Workers = rapid.SliceOfN(rapid.SampledFrom([]int{0, 0, 0, 1, 1, 2, 3, 4, 4}), 3, 8).Draw(t, "workers")
+		if rapid.IntRange(0, 3).Draw(t, "flood") == 0 {
+			// added in round m: both limits of the mem store at once and nothing but deliveries, to
+			// the full mailbox and to a second one - cap evictions overlap the size enforcer's work
+			c.Backend, c.Cap, c.MaxKB = "mem", rapid.SampledFrom([]int{1, 2, 3}).Draw(t, "fcap"), rapid.SampledFrom([]int{1, 2}).Draw(t, "fkb")
+			c.Workers = rapid.SliceOfN(rapid.SampledFrom([]int{5, 5, 5, 6}), 4, 8).Draw(t, "fworkers")
+		}
 		return c
 	},
 	Run: func(c RCase) *hx.Outcome {
@@ -552,13 +559,15 @@ var propRace = hx.Prop[RCase]{
 		rc, _ := w.Policy.NewRecipient("race@a.test")
 		var dmu sync.Mutex
 		deliveries := map[string]int{}
-		deliver := func() {
-			if err := w.Manager.Deliver(origin, []*policy.Recipient{rc}, "Received: from h ([1.1.1.1]) by d\r\n", []byte("Subject: r\r\n\r\n"+strings.Repeat("y", 200)+"\r\n")); err == nil {
+		rc2, _ := w.Policy.NewRecipient("other@a.test")
+		deliverTo := func(r *policy.Recipient, box string) {
+			if err := w.Manager.Deliver(origin, []*policy.Recipient{r}, "Received: from h ([1.1.1.1]) by d\r\n", []byte("Subject: r\r\n\r\n"+strings.Repeat("y", 200)+"\r\n")); err == nil {
 				dmu.Lock()
-				deliveries["race"]++
+				deliveries[box]++
 				dmu.Unlock()
 			}
 		}
+		deliver := func() { deliverTo(rc, "race") }
 		for i := 0; i < c.N; i++ {
 			deliver()
 		}
@@ -592,6 +601,14 @@ var propRace = hx.Prop[RCase]{
 				case 3:
 					for i := 0; i < 5; i++ {
 						deliver()
+					}
+				case 5:
+					for i := 0; i < 40; i++ {
+						deliver()
+					}
+				case 6:
+					for i := 0; i < 40; i++ {
+						deliverTo(rc2, "other")
 					}
 				case 4:
 					// a reader opening the messages one after the other: emits nothing, but rewrites
@@ -636,7 +653,10 @@ var propRace = hx.Prop[RCase]{
 			s, d := rec.snapshot()
 			o.Failf(pid+":event-accounting", "[%s cap=%d maxkb=%d, workers %v] %s (stored events %d, deleted events %d)", c.Backend, c.Cap, c.MaxKB, c.Workers, msg, len(s), len(d))
 		}
-		o.NonTrivial = removers >= 2
+		o.NonTrivial = removers >= 2 || (c.Cap > 0 && c.MaxKB > 0 && len(c.Workers) >= 4 && c.Workers[0] >= 5)
+		if c.Cap > 0 && c.MaxKB > 0 && c.Workers[0] >= 5 {
+			o.Class("flood of deliveries under both mem limits")
+		}
 		return o
 	},
 }
